@@ -1,4 +1,5 @@
 import Ecal.Lemmas.LexTerminates
+import Ecal.Lemmas.LexerGap
 /-!
 List-level facts about the token list of the lexer model (C18): the EOF token occurs only at the
 end and carries the line of the end of the input, `Pos` is strictly increasing, and every token
@@ -100,10 +101,38 @@ def GenOK (inp : Bytes) (t : Tok) : Prop :=
   ∃ s : L, Inv s ∧ Ready s ∧ s.inp = inp ∧ (lexToken s).1.toks = s.toks.push t ∧
     (t.id = tPOSTCOMMENT ∨ t.id = tPRECOMMENT ∨ t.id = tERROR ∨ t.pos = s.pos)
 
+/-- where the previous token's phase ended (`e`): at offset 0 if there is no previous token; else
+    behind the previous token `a` — directly behind its text when its value is its source text
+    (`EndOK`: keywords, symbols, identifiers, comments) -/
+def PrevEnd (pre : List Tok) (e : Nat) : Prop :=
+  (pre = [] ∧ e = 0) ∨ ∃ pre' a, pre = pre' ++ [a] ∧ a.pos < e ∧ EndOK a.id a.pos a.val.length e
+
+/-- **the gap in front of a token**: `t` (with the tokens `pre` before it) was lexed from the boundary
+    offset `spos` — `Pos` itself, or the comment opener in front of it (`OffOK`) — where a rune stands
+    that is not blank, and everything between the end of the previous token's phase and `spos` is a
+    run of blank runes -/
+def GapAt (inp : Bytes) (pre : List Tok) (t : Tok) : Prop :=
+  ∃ spos e, OffOK t.id t.pos spos ∧ spos < inp.size ∧ blank (some (decodeRune inp spos).1) = false ∧
+    BlankRun inp e spos ∧ PrevEnd pre e
+
 /-- the tokens before the final EOF: no EOF among them, `Pos` strictly increasing, each generated
-    by `lexToken` at a token boundary -/
+    by `lexToken` at a token boundary, each with a blank gap in front of it -/
 def TokBody (inp : Bytes) (body : List Tok) : Prop :=
-  (∀ t ∈ body, t.id ≠ tEOF) ∧ body.Pairwise (fun a b => a.pos < b.pos) ∧ (∀ t ∈ body, GenOK inp t)
+  (∀ t ∈ body, t.id ≠ tEOF) ∧ body.Pairwise (fun a b => a.pos < b.pos) ∧ (∀ t ∈ body, GenOK inp t) ∧
+  (∀ pre t post, body = pre ++ t :: post → GapAt inp pre t)
+
+/-- decomposing a list that ends in `x` -/
+theorem snoc_decomp {α : Type} {body pre post : List α} {x t : α} (h : body ++ [x] = pre ++ t :: post) :
+    (post = [] ∧ pre = body ∧ t = x) ∨ ∃ post', post = post' ++ [x] ∧ body = pre ++ t :: post' := by
+  rcases List.eq_nil_or_concat post with rfl | ⟨post', y, rfl⟩
+  · left
+    have := List.append_inj' h (by simp)
+    exact ⟨rfl, this.1.symm, by simpa using this.2.symm⟩
+  · right
+    have h' : body ++ [x] = (pre ++ t :: post') ++ [y] := by simpa using h
+    have := List.append_inj' h' (by simp)
+    have hy : x = y := by simpa using this.2
+    exact ⟨post', by rw [hy]; simp, this.1⟩
 
 /-- the shape of a complete token list: the body, then either nothing (the body ends with an error
     token) or the EOF token, which carries the line of the end of the input unless the body ends
@@ -118,11 +147,13 @@ def Final (inp : Bytes) (ts : List Tok) : Prop :=
 structure ListInv (l : L) : Prop where
   body : TokBody l.inp l.toks.toList
   lt : ∀ t ∈ l.toks.toList, t.pos < l.pos
+  gap : ∃ e, BlankRun l.inp e l.pos ∧ PrevEnd l.toks.toList e
 
 theorem TokBody.push {inp : Bytes} {body : List Tok} {t : Tok} (h : TokBody inp body)
-    (hid : t.id ≠ tEOF) (hlt : ∀ a ∈ body, a.pos < t.pos) (hg : GenOK inp t) : TokBody inp (body ++ [t]) := by
-  obtain ⟨b1, b2, b3⟩ := h
-  refine ⟨?_, ?_, ?_⟩
+    (hid : t.id ≠ tEOF) (hlt : ∀ a ∈ body, a.pos < t.pos) (hg : GenOK inp t) (hgap : GapAt inp body t) :
+    TokBody inp (body ++ [t]) := by
+  obtain ⟨b1, b2, b3, b4⟩ := h
+  refine ⟨?_, ?_, ?_, ?_⟩
   · intro a ha
     rcases List.mem_append.mp ha with ha | ha
     · exact b1 a ha
@@ -135,6 +166,10 @@ theorem TokBody.push {inp : Bytes} {body : List Tok} {t : Tok} (h : TokBody inp 
     rcases List.mem_append.mp ha with ha | ha
     · exact b3 a ha
     · rw [List.mem_singleton.mp ha]; exact hg
+  · intro pre a post hd
+    rcases snoc_decomp hd with ⟨_, rfl, rfl⟩ | ⟨post', _, hb⟩
+    · exact hgap
+    · exact b4 pre a post' hb
 
 theorem lex_loop_final (fuel : Nat) : ∀ (l : L), Inv l → Ready l → ListInv l → l.inp.size - l.pos < fuel →
     Final l.inp (lex.loop fuel l).toks.toList := by
@@ -146,8 +181,12 @@ theorem lex_loop_final (fuel : Nat) : ∀ (l : L), Inv l → Ready l → ListInv
     obtain ⟨sf, st⟩ := sws_total (lexToken l).1 hle1
     have e := sws_ext (lexToken l).1
     -- the list after this phase is a body again
+    obtain ⟨hkind, hoff, hend⟩ := hkind
+    have hgapT : GapAt l.inp l.toks.toList t := by
+      obtain ⟨e, he1, he2⟩ := hl.gap
+      exact ⟨l.pos, e, hoff, hr.1, hr.2, he1, he2⟩
     have hbody : TokBody l.inp (l.toks.toList ++ [t]) :=
-      hl.body.push hid (fun a ha => Nat.lt_of_lt_of_le (hl.lt a ha) hge) ⟨l, h, hr, rfl, ht, hkind⟩
+      hl.body.push hid (fun a ha => Nat.lt_of_lt_of_le (hl.lt a ha) hge) ⟨l, h, hr, rfl, ht, hkind⟩ hgapT
     have hlast : (l.toks.toList ++ [t]).getLast? = some t := by simp
     have htoks1 : (lexToken l).1.toks.toList = l.toks.toList ++ [t] := by rw [ht]; simp
     simp only [lex.loop]
@@ -193,12 +232,15 @@ theorem lex_loop_final (fuel : Nat) : ∀ (l : L), Inv l → Ready l → ListInv
       have hp := hprog htok
       have hinp : (skipWhiteSpace (lexToken l).1).1.inp = l.inp := e.1.trans t3
       have hl2 : ListInv (skipWhiteSpace (lexToken l).1).1 := by
-        refine ⟨by rw [hinp, st hok, htoks1]; exact hbody, ?_⟩
-        intro a ha
-        rw [st hok, htoks1] at ha
-        rcases List.mem_append.mp ha with ha | ha
-        · have := hl.lt a ha; omega
-        · rw [List.mem_singleton.mp ha]; omega
+        refine ⟨by rw [hinp, st hok, htoks1]; exact hbody, ?_, ?_⟩
+        · intro a ha
+          rw [st hok, htoks1] at ha
+          rcases List.mem_append.mp ha with ha | ha
+          · have := hl.lt a ha; omega
+          · rw [List.mem_singleton.mp ha]; omega
+        · refine ⟨(lexToken l).1.pos, ?_, Or.inr ⟨l.toks.toList, t, by rw [st hok, htoks1], hp, hend⟩⟩
+          have := sws_blank (lexToken l).1 hle1 hok
+          rw [t3] at this; rw [hinp]; exact this
       have := ih _ i1 i2 hl2 (by rw [hinp]; rw [t3] at hle1; omega)
       rw [hinp] at this
       exact this
@@ -214,14 +256,18 @@ theorem lex_final (input : List Nat) : Final input.toArray (lex input).toList :=
   · rename_i hok
     simp only [Bool.not_eq_true'] at hok
     obtain ⟨eof, he, hid, hline⟩ := sws_eof_line _ h0 hok
-    exact ⟨[], [eof], by rw [he]; simp, ⟨by simp, by simp, by simp⟩, Or.inr ⟨eof, rfl, hid, Or.inl hline⟩⟩
+    exact ⟨[], [eof], by rw [he]; simp, ⟨by simp, by simp, by simp, by intro pre t post h; simp at h⟩,
+      Or.inr ⟨eof, rfl, hid, Or.inl hline⟩⟩
   · rename_i hok
     simp only [Bool.not_eq_true', Bool.not_eq_false] at hok
     obtain ⟨i1, i2, i3⟩ := sws_inv_ready _ h0 hok
     have hl : ListInv (skipWhiteSpace ({ inp := input.toArray } : L)).1 := by
-      refine ⟨?_, ?_⟩
-      · rw [st hok]; exact ⟨by simp, by simp, by simp⟩
+      refine ⟨?_, ?_, ?_⟩
+      · rw [st hok]; exact ⟨by simp, by simp, by simp, by intro pre t post h; simp at h⟩
       · intro a ha; rw [st hok] at ha; simp at ha
+      · refine ⟨0, ?_, Or.inl ⟨by rw [st hok], rfl⟩⟩
+        have := sws_blank ({ inp := input.toArray } : L) (Nat.zero_le _) hok
+        rw [e.1]; exact this
     have := lex_loop_final (input.length + 2) _ i1 i2 hl (by rw [e.1]; simp; omega)
     rw [e.1] at this
     exact this
